@@ -205,6 +205,46 @@ theorem first_read (b : Byte) (rest : Stream) (n : Nat) :
   have : n ≠ 0 := by omega
   simp [OneByte.read, this]
 
+/-- dispatch's read of the detection byte, for EVERY chunking of the client's stream — empty
+    chunks ((0,nil) reads) before the byte included, io.ReadFull loops over them: the step it
+    takes records exactly the first byte the client sent (so `routing` below routes on the REAL
+    first byte), or closes the conn if the client sent nothing at all. -/
+theorem detect_every_chunking (cs : Stream) :
+    (∀ b rest, detect cs = some (b, rest) → cs.flatten = b :: rest.flatten) ∧
+    (detect cs = none → cs.flatten = []) ∧
+    (∀ (s : St) (c : Nat), s.conn c = .reading →
+      (∃ b, cs.flatten.head? = some b ∧ (step fixed s (readLabel c cs)).conn c = .got b) ∨
+      (cs.flatten = [] ∧ (step fixed s (readLabel c cs)).conn c = .closed)) := by
+  refine ⟨fun b rest h => detect_some cs b rest h, detect_none cs, ?_⟩
+  intro s c hc
+  cases hd : detect cs with
+  | none => right; exact ⟨detect_none cs hd, by simp [readLabel, hd, step, hc]⟩
+  | some p =>
+    obtain ⟨b, rest⟩ := p
+    left
+    exact ⟨b, by rw [detect_some cs b rest hd]; rfl, by simp [readLabel, hd, step, hc]⟩
+
+/-- end to end behind the detection byte, for EVERY chunking (leading empty chunks included)
+    and EVERY sequence of the handler's read sizes (zero-length reads included): what the
+    handler has read through the wrapper, followed by what is still to come, is exactly the
+    client's stream — nothing fabricated in front of it, nothing lost -/
+theorem detect_then_replay_intact (cs : Stream) (w : OneByte) (ns : List Nat) (h : wrapped cs = some w) :
+    (OneByte.reads ns w).1.flatten ++ (OneByte.reads ns w).2.pending = cs.flatten := by
+  unfold wrapped at h
+  split at h
+  · rename_i b rest hd
+    simp at h; subst h
+    rw [OneByte.reads_pending, detect_some cs b rest hd]
+    simp [OneByte.pending]
+  · simp at h
+
+/-- why it has to be io.ReadFull: with a single conn.Read an empty first read leaves 0x00 in
+    the buffer — a SOCKS5 stream would be routed to HTTP with a fabricated byte in front -/
+theorem single_read_would_misroute :
+    detect [[], [byte 5, byte 1]] = some (byte 5, [[byte 1]]) ∧
+    detectOneRead [[], [byte 5, byte 1]] = (byte 0, [[byte 5, byte 1]]) ∧
+    route (detectOneRead [[], [byte 5, byte 1]]).1 = .http ∧ route (byte 5) = .socks := by decide
+
 /-- routing, for every schedule: a connection is only ever queued for / delivered to a
     sub-listener of the kind its first byte selects — 0x05 → SOCKS5, anything else → HTTP -/
 theorem routing (sched : List Label) (c : Nat) (b : Byte) (t : Nat)
